@@ -36,6 +36,29 @@ PROBES = [
 ]
 
 
+def _leaves(v, out):
+    if isinstance(v, dict):
+        for k, x in v.items():
+            if isinstance(x, list):
+                for y in x:
+                    _leaves(y, out)
+            else:
+                out.append((k, x))
+
+
+def only_zero_sign(a, b):
+    """both runs succeeded and every differing leaf is 0x80000000 on one side and 0 on the other"""
+    la, lb = [], []
+    for g in a.get("globals", []):
+        _leaves(g, la)
+    for g in b.get("globals", []):
+        _leaves(g, lb)
+    if len(la) != len(lb):
+        return False
+    diff = [(x, y) for x, y in zip(la, lb) if x != y]
+    return bool(diff) and all(x[0] == y[0] and {x[1], y[1]} == {0, 0x80000000} for x, y in diff)
+
+
 def run_probes(ctx, tools, exe_ir):
     jobs = [{"id": i, "src": p["src"], "want": ["ir"]} for i, p in enumerate(PROBES)]
     res = nagarun.run_batch(tools["nagadrive"], "compile", jobs)
@@ -101,10 +124,13 @@ def run_leg(ctx, tools, n_programs, opts=None, tag="wgslleg"):
             except Exception:
                 small = c["prog"]
             ssrc = wgslgen.render(small)
+            key = "wgsl-ir:differ:" + ssrc[-120:]
+            if k == "DIFFER" and only_zero_sign(o["wgsl"], o["ir"]):
+                key = "wgsl-ir:const-fold:negative-zero"      # the two results differ only in the sign of a zero
             ctx.violation("WGSL->IR: the lowered IR does not compute what the WGSL program means (%s %s)" % (k, msg[:160]),
                           files={"input.wgsl": ssrc, "original.wgsl": c["src"], "inputs.json": json.dumps(inp),
                                  "wgsl_result.json": json.dumps(o["wgsl"]), "ir_result.json": json.dumps(o["ir"])},
-                          key="wgsl-ir:differ:" + ssrc[-120:])
+                          key=key)
     nprobe = run_probes(ctx, tools, exe_ir)
     stats["probes"] = nprobe
     for c in cases[:2]:
